@@ -20,6 +20,7 @@ import (
 	"fmt"
 	"io"
 	"math"
+	"sort"
 	"time"
 
 	"github.com/pkg/errors"
@@ -237,6 +238,10 @@ func (b *backend) GetPartitions(ctx context.Context, r *proto.ListPartitionReque
 	}
 	// kvs length = partition number + 1
 	resp.PartitionKeys = make([][]byte, 0, len(partitions)+1)
+	// an engine may hand its partitions over in any order: advertise them in key order
+	sort.Slice(partitions, func(i, j int) bool {
+		return bytes.Compare(partitions[i].Start, partitions[j].Start) < 0
+	})
 
 	for idx, p := range partitions {
 		// append range start of partition only
